@@ -109,7 +109,7 @@ def body(ctx: C.Ctx, proof: C.ProofStatus) -> C.Result:
 
     res = C.Result()
     rng = ctx.rng
-    n = ctx.scale(2000, 150000)
+    n = ctx.scale(2000, 40000)
     base = ctx.tmp / "z"
     base.mkdir(parents=True)
     texts = [("", "empty_file"), ("- foo\n", "item_without_header"), ("# T", "header_without_newline"), ("# T\n\n- zz [#} yy\n", "kf_e"),
@@ -151,7 +151,7 @@ def body(ctx: C.Ctx, proof: C.ProofStatus) -> C.Result:
     cfg = Z.write_config(ctx.tmp / "cfg.yml")
     zdir = ctx.tmp / "d"
     broken_pool = [t for (t, k), (_, r) in zip(texts, outs) if "exc" not in r and r["errors"] and r["has_errors"]][:400]
-    for k in range(ctx.scale(16, 800)):
+    for k in range(ctx.scale(16, 200)):
         if not broken_pool:
             break
         if zdir.exists():
